@@ -3,3 +3,4 @@ import PtGen.EqTable
 import PtGen.Children
 import PtGen.ChildrenWitness
 import PtGen.Distribute
+import PtGen.Dtypes
